@@ -253,7 +253,7 @@ def mk_vehicle(
     )
 
 
-def mk_station(env, rn, sid, geoid, chargers: Dict[str, int], fleets=(), on_shift=None) -> Station:
+def mk_station(env, rn, sid, geoid, chargers: Dict[str, int], fleets=(), on_shift=None, one_row_per_plug: bool = False) -> Station:
     """a station assembled the way the stations file is read: one row per plug type through Station.from_row (the first row
     builds the station, later rows append plug types), memberships set afterwards as the fleets file does"""
     import h3
@@ -264,7 +264,10 @@ def mk_station(env, rn, sid, geoid, chargers: Dict[str, int], fleets=(), on_shif
         # are built directly)
         return _mk_station_direct(env, rn, sid, geoid, chargers, fleets, on_shift)
     builder: Dict[str, Station] = {}
-    for cid, n in chargers.items():
+    # one_row_per_plug: a plug type with n plugs is listed on n rows of one plug each (the stations file may repeat a
+    # (station, plug type) pair; the counts add up)
+    rows = [(cid, 1) for cid, n in chargers.items() for _ in range(n)] if one_row_per_plug else list(chargers.items())
+    for cid, n in rows:
         row = {"station_id": sid, "lat": repr(lat), "lon": repr(lon), "charger_id": cid, "charger_count": str(n),
                "on_shift_access": "true" if (on_shift is None or cid in on_shift) else "false"}
         builder[sid] = Station.from_row(row, builder, rn, env)
